@@ -32,6 +32,7 @@ import (
 )
 
 type Clause struct {
+	Assumed bool // exported to callers but not checked at the definition (listed as an assumption)
 	Local bool // checked at the definition only (may name locals of the function); not assumed by callers
 	Label string
 	Src   string
@@ -242,6 +243,10 @@ func (db *ContractDB) loadFile(fn string) error {
 				cur.Requires = append(cur.Requires, mkClause(rest))
 			case "ensures":
 				cur.Ensures = append(cur.Ensures, mkClause(rest))
+			case "ensures_assumed":
+				c := mkClause(rest)
+				c.Assumed = true
+				cur.Ensures = append(cur.Ensures, c)
 			case "ensures_local":
 				c := mkClause(rest)
 				c.Local = true
